@@ -22,7 +22,7 @@ vars == <<ps, hist, ncfg, nparse>>
 \* families c15p / c16p: the same histories on PasetoParser (which delegates to a GenericParser and
 \* always carries the default exp / nbf validators)
 Base == IF Family = "c15p" THEN "c15" ELSE IF Family = "c16p" THEN "c16" ELSE Family
-Layer == IF Family \in {"c11", "c15p", "c16p"} THEN "prelude" ELSE "generic"
+Layer == IF Family \in {"c11", "c11t", "c15p", "c16p"} THEN "prelude" ELSE "generic"
 K2 == IF Family = "c15p" THEN "iat" ELSE "ca"
 Pr == <<4, "local">>
 
@@ -44,6 +44,13 @@ TokTable ==
             ELSE IF i = Len(seq) + 1
             THEN Tok(Org("none"), E("flip", "tag", ""), TRUE, [NoClaims EXCEPT !["ca"] = "v1", !["cb"] = "v1"])
             ELSE Tok(Org("none"), NoEdit, FALSE, NoClaims)]
+    [] Family = "c11t" ->
+         \* time passes: tokens whose exp / nbf lies a few seconds after the start of the history
+         <<Tok(Org("none"), NoEdit, TRUE, [NoClaims EXCEPT !["exp"] = SoonVal]),
+           Tok(Org("none"), NoEdit, TRUE, [NoClaims EXCEPT !["nbf"] = SoonVal]),
+           Tok(Org("none"), NoEdit, TRUE, [NoClaims EXCEPT !["exp"] = SoonVal, !["nbf"] = SoonVal]),
+           Tok(Org("none"), NoEdit, TRUE, [NoClaims EXCEPT !["exp"] = "future", !["nbf"] = SoonVal]),
+           Tok(Org("none"), NoEdit, TRUE, [NoClaims EXCEPT !["exp"] = SoonVal, !["nbf"] = "past"])>>
     [] Base = "c11" ->
          LET S == {<<a, b>> : a \in TimeVals, b \in TimeVals} IN
          LET seq == SetToSeq(S) IN
@@ -53,7 +60,8 @@ Op4(op, k, v, t) == [op |-> op, k |-> k, v |-> v, t |-> t]
 
 \* PasetoParser has no extend_* methods
 CfgOps ==
-  CASE Family = "c15p" -> {Op4("check", k, v, 0) : k \in {"iss", "iat"}, v \in {"v1", "v2"}}
+  CASE Family = "c11t" -> {Op4("tick", "", "", 0)}
+    [] Family = "c15p" -> {Op4("check", k, v, 0) : k \in {"iss", "iat"}, v \in {"v1", "v2"}}
     [] Family = "c16p" -> {Op4("validate", k, kind, 0) : k \in {"ca", "cb"}, kind \in {"accept", "reject", "magic"}}
                            \cup {Op4("check", k, "v1", 0) : k \in {"ca", "cb"}}
                            \cup {Op4("footer", "", "f1", 0)}
@@ -66,7 +74,7 @@ CfgOps ==
     [] Family = "c11" -> {Op4("check", "exp", "v1", 0), Op4("check", "nbf", "v1", 0), Op4("check", "iss", "v1", 0)}
 
 ParseOps ==
-  {Op4("parse", key, "", t) : key \in (IF Base = "c11" THEN {"k1"} ELSE {"k1", "k2"}), t \in 1..Len(TokTable)}
+  {Op4("parse", key, "", t) : key \in (IF Base \in {"c11", "c11t"} THEN {"k1"} ELSE {"k1", "k2"}), t \in 1..Len(TokTable)}
 
 Init == ps = PInit(Layer, Pr) /\ hist = <<>> /\ ncfg = 0 /\ nparse = 0
 
